@@ -6,10 +6,11 @@ TRACE = "Batch_Trace.tla"
 TRACE_CFG = "Batch_Trace.cfg"
 
 
-def validate(ctx, programs, source, tamper=True, chunk=1500):
+def validate(ctx, programs, source, tamper=True, chunk=1500, isolated=False):
     ctx.replay_driver = "batch"
     return ctx.validate(TRACE, TRACE_CFG, programs, B.run_program, source=source, expect_clean=True,
-                        tamper=B.tamper if tamper else None, chunk=chunk, min_events=1)
+                        tamper=B.tamper if tamper else None, chunk=chunk, min_events=1,
+                        isolated=("batch", "run_program", 120) if isolated else None)
 
 
 def replay(ctx, doc):
